@@ -408,7 +408,7 @@ fn run_history(ops: &[Op], pair: bool, sa: Sched, sb: Sched, backpressure: Optio
                                 return out;
                             }
                             out.counters.push("read_ok");
-                            if before.local_write_closed {
+                            if before.local_write_closed && !before.cw_pending {
                                 out.counters.push("read_ok_after_local_close_write");
                             }
                             if before.stop_rx {
@@ -423,7 +423,7 @@ fn run_history(ops: &[Op], pair: bool, sa: Sched, sb: Sched, backpressure: Optio
                                 return out;
                             }
                             out.counters.push("write_ok");
-                            if before.local_read_closed {
+                            if before.local_read_closed && !before.cr_pending {
                                 out.counters.push("write_ok_after_local_close_read");
                             }
                             if before.fin_rx {
